@@ -17,6 +17,9 @@ CONFIGS = {
 }
 
 
+THOROUGH_CONFIGS = ["nodefault", "async", "serde", "embed_image", "time_only"]
+
+
 def tree_key():
     """SHA-256 over everything the build of the lopdf library reads."""
     h = hashlib.sha256()
@@ -94,9 +97,10 @@ class Finding:
         self.what = what
         self.where = where
         self.detail = detail or {}
+        self.cfg = "default"
 
     def to_json(self):
-        return {"rule": self.rule, "key": self.key, "what": self.what, "where": self.where, "detail": self.detail}
+        return {"rule": self.rule, "key": self.key, "what": self.what, "where": self.where, "detail": self.detail, "configuration": self.cfg}
 
 
 class Ctx:
@@ -113,14 +117,19 @@ class Ctx:
         self.assumptions = []
         self.extracted = {}
         self._facts = {}
+        self.cur_cfg = "default"
+        self.cfg_override = os.environ.get("VERIF_CFG") or None
 
     # ---- facts
     def facts(self, cfg="default"):
         import mir
+        if cfg == "default" and getattr(self, "cfg_override", None):
+            cfg = self.cfg_override      # thorough tier: the same rules over another feature configuration
         if cfg not in self._facts:
             ff, fresh = ensure_facts(cfg)
             self.extracted[cfg] = fresh
             self._facts[cfg] = mir.Facts(ff)
+        self.cur_cfg = cfg        # findings recorded from now on belong to this build configuration
         return self._facts[cfg]
 
     # ---- obligations
@@ -129,12 +138,16 @@ class Ctx:
         self.obligations.append({"rule": rule, "key": key, "status": "discharged" if ok else "FAILED", "how": how, "where": where,
                                  "nontrivial": nontrivial})
         if not ok:
-            self.findings.append(Finding(rule, "%s|%s" % (rule, key), what or how, where, detail))
+            f = Finding(rule, "%s|%s" % (rule, key), what or how, where, detail)
+            f.cfg = self.cur_cfg
+            self.findings.append(f)
         return ok
 
     def finding(self, rule, key, what, where="", detail=None):
         self.obligations.append({"rule": rule, "key": key, "status": "FAILED", "how": what, "where": where, "nontrivial": True})
-        self.findings.append(Finding(rule, "%s|%s" % (rule, key), what, where, detail))
+        f = Finding(rule, "%s|%s" % (rule, key), what, where, detail)
+        f.cfg = self.cur_cfg
+        self.findings.append(f)
 
     def floor(self, rule, name, got, at_least):
         """fail closed when a rule matched fewer instances than were confirmed by hand."""
@@ -166,10 +179,12 @@ def finish(ctx, level, rule_text, explanation=None, trusted_base=None, exhaustiv
     per_key = {}
     for f in ctx.findings:
         k = known_keys.get((ctx.prop, f.key))
-        per_key[f.key] = per_key.get(f.key, 0) + 1
+        # sites are counted per build configuration: the same site seen again under another feature set is the same finding
+        ck = (f.cfg, f.key)
+        per_key[ck] = per_key.get(ck, 0) + 1
         # a known finding suppresses exactly the recorded number of sites with that signature
-        if k is not None and per_key[f.key] <= int(k.get("n", 1)):
-            if per_key[f.key] == 1:
+        if k is not None and per_key[ck] <= int(k.get("n", 1)):
+            if per_key[ck] == 1 and not any(f2.key == f.key for f2, _ in seen_known):
                 seen_known.append((f, k))
         else:
             new.append(f)
